@@ -363,3 +363,362 @@ Proof.
     eexists; split; [reflexivity|]. simpl. rewrite nth_error_upd_eq by auto.
     eexists; split; [reflexivity|]. simpl. rewrite Ht. auto.
 Qed.
+
+(* ------------------------------------------------------------------ T3: each value goes to at most one receiver, of its own key *)
+Definition pid_of (th : thread) : option nat :=
+  match pc th with PubFound _ _ _ p | PubBlocked _ _ _ p => Some p | _ => None end.
+
+Fixpoint delivered (l : list bev) : list nat :=
+  match l with
+  | [] => []
+  | EvDeliver p _ _ _ _ :: r => p :: delivered r
+  | _ :: r => delivered r
+  end.
+
+Definition key_of (en : list entry) (e : nat) : key := e_key (nth e en dummy_entry).
+
+(* what a thread remembers about keys agrees with the (immutable) key of the entry it refers to,
+   and a publish in progress has logged its start *)
+Definition thread_keys_ok (en : list entry) (lg : list bev) (th : thread) : Prop :=
+  (match pc th with
+   | PubFound k e x p | PubBlocked k e x p => e < length en /\ key_of en e = k /\ In (EvPubStart p k x) lg
+   | RecvBlocked k e c => e < length en /\ key_of en e = k
+   | Idle => True
+   end) /\
+  Forall (fun h => match h with (k, e, c) => e < length en /\ key_of en e = k end) (handles th).
+
+Definition Inv3 (s : bst) : Prop :=
+  Forall (thread_keys_ok (ents s) (log s)) (thr s) /\
+  (forall k e, In (k, e) (tbl s) -> e < length (ents s) /\ key_of (ents s) e = k) /\
+  (forall t th p, nth_error (thr s) t = Some th -> pid_of th = Some p -> p < next_pid s /\ ~ In p (delivered (log s))) /\
+  (forall t1 t2 th1 th2 p, nth_error (thr s) t1 = Some th1 -> nth_error (thr s) t2 = Some th2 ->
+                           pid_of th1 = Some p -> pid_of th2 = Some p -> t1 = t2) /\
+  NoDup (delivered (log s)) /\
+  (forall p, In p (delivered (log s)) -> p < next_pid s) /\
+  (forall p kp kr x r, In (EvDeliver p kp kr x r) (log s) -> kp = kr /\ In (EvPubStart p kp x) (log s)).
+
+Lemma pid_wake1 v s th p : pid_of (wake1 v s th) = Some p -> pid_of th = Some p.
+Proof.
+  destruct (wake1_cases v s th) as [H|[r H]]; rewrite H; auto. unfold pid_of, ret; simpl. discriminate.
+Qed.
+
+Lemma keys_ret en lg th r : thread_keys_ok en lg th -> thread_keys_ok en lg (ret th r).
+Proof. intros [_ H]. split; simpl; auto. Qed.
+
+Lemma keys_wake1 v s en lg th : thread_keys_ok en lg th -> thread_keys_ok en lg (wake1 v s th).
+Proof. intros H. destruct (wake1_cases v s th) as [E|[r E]]; rewrite E; auto. apply keys_ret; auto. Qed.
+
+Lemma keys_mono en lg en' lg' th :
+  thread_keys_ok en lg th ->
+  (forall e, e < length en -> e < length en' /\ key_of en' e = key_of en e) ->
+  (forall ev, In ev lg -> In ev lg') ->
+  thread_keys_ok en' lg' th.
+Proof.
+  intros [H1 H2] Hk Hl. split.
+  - destruct (pc th); auto.
+    + destruct H1 as (A & B & C). destruct (Hk _ A) as [A' B']. repeat split; auto. congruence.
+    + destruct H1 as (A & B & C). destruct (Hk _ A) as [A' B']. repeat split; auto. congruence.
+    + destruct H1 as (A & B). destruct (Hk _ A) as [A' B']. split; auto. congruence.
+  - eapply Forall_impl; [|exact H2]. intros [[k e] c] [A B]. destruct (Hk _ A) as [A' B']. split; auto. congruence.
+Qed.
+
+Lemma key_of_app en x e : e < length en -> key_of (en ++ [x]) e = key_of en e.
+Proof. intros H. unfold key_of. rewrite app_nth1; auto. Qed.
+
+Lemma key_of_upd_cancel v l e0 en e :
+  nth_error l e0 = Some en -> key_of (upd l e0 (cancel_entry v en)) e = key_of l e.
+Proof.
+  intros H. unfold key_of. destruct (Nat.eq_dec e e0) as [->|Hne].
+  - assert (e0 < length l) by (apply nth_error_Some; congruence).
+    rewrite (nth_error_nth _ _ _ (nth_error_upd_eq l e0 (cancel_entry v en) H0)).
+    rewrite (nth_error_nth _ _ _ H). reflexivity.
+  - destruct (nth_error l e) as [x|] eqn:E.
+    + rewrite (nth_error_nth _ _ _ E). erewrite nth_error_nth; [reflexivity|]. rewrite nth_error_upd_neq; auto.
+    + rewrite !nth_overflow; auto; [apply nth_error_None; auto|rewrite upd_length; apply nth_error_None; auto].
+Qed.
+
+Lemma key_of_cancel_entries v es l e :
+  key_of (cancel_entries v es l) e = key_of l e /\ length (cancel_entries v es l) = length l.
+Proof.
+  unfold cancel_entries. revert l. induction es as [|e0 es IH]; intros l; simpl; auto.
+  destruct (nth_error l e0) as [en|] eqn:E; [|apply IH].
+  destruct (IH (upd l e0 (cancel_entry v en))) as [A B]. rewrite A, B, upd_length. split; auto.
+  apply key_of_upd_cancel; auto.
+Qed.
+
+Lemma delivered_quiet ev lg :
+  (forall p a b c d, ev <> EvDeliver p a b c d) -> delivered (ev :: lg) = delivered lg.
+Proof. intros H. destruct ev; auto. exfalso. eapply H; eauto. Qed.
+
+(* ---- generic preservation lemmas ---- *)
+Lemma Inv3_wake v s : Inv3 s -> Inv3 (wake v s).
+Proof.
+  intros (K1 & K2 & P1 & P2 & D1 & D2 & D3). unfold wake.
+  split; [|split; [|split; [|split; [|split; [|split]]]]]; simpl; auto.
+  - apply Forall_forall. intros x Hin. apply in_map_iff in Hin as (th & <- & Hin).
+    apply keys_wake1. rewrite Forall_forall in K1. auto.
+  - intros t th p H H0. rewrite nth_error_map in H. destruct (nth_error (thr s) t) as [th0|] eqn:E; [|discriminate].
+    simpl in H. inversion H; subst. apply pid_wake1 in H0. eapply P1; eauto.
+  - intros t1 t2 th1 th2 p H1 H2 Q1 Q2. rewrite nth_error_map in H1, H2.
+    destruct (nth_error (thr s) t1) as [a1|] eqn:E1; [|discriminate].
+    destruct (nth_error (thr s) t2) as [a2|] eqn:E2; [|discriminate].
+    simpl in *. inversion H1; inversion H2; subst. apply pid_wake1 in Q1. apply pid_wake1 in Q2. eapply P2; eauto.
+Qed.
+
+(* replacing thread t by a thread that has no publish in progress and only handles that are ok *)
+Lemma Inv3_upd_nopid s t th' :
+  Inv3 s -> pid_of th' = None -> thread_keys_ok (ents s) (log s) th' -> Inv3 (set_thr s (upd (thr s) t th')).
+Proof.
+  intros (K1 & K2 & P1 & P2 & D1 & D2 & D3) Hp Hk.
+  split; [|split; [|split; [|split; [|split; [|split]]]]]; simpl; auto.
+  - apply Forall_upd; auto.
+  - intros t0 th p H H0. apply nth_error_upd in H as [(-> & -> & _)|(Hne & H)]; [congruence|eapply P1; eauto].
+  - intros t1 t2 th1 th2 p H1 H2 Q1 Q2.
+    apply nth_error_upd in H1 as [(-> & -> & _)|(N1 & H1)]; [congruence|].
+    apply nth_error_upd in H2 as [(-> & -> & _)|(N2 & H2)]; [congruence|]. eapply P2; eauto.
+Qed.
+
+Lemma Inv3_add_log_quiet s ev :
+  (forall p a b c d, ev <> EvDeliver p a b c d) -> Inv3 s -> Inv3 (add_log s ev).
+Proof.
+  intros Hq (K1 & K2 & P1 & P2 & D1 & D2 & D3). unfold add_log.
+  pose proof (delivered_quiet ev (log s) Hq) as Hd.
+  split; [|split; [|split; [|split; [|split; [|split]]]]]; cbn [thr ents tbl log next_pid]; rewrite ?Hd; auto.
+  - eapply Forall_impl; [|exact K1]. intros th Hth. eapply keys_mono; eauto. intros; simpl; auto.
+  - intros p kp kr x r [H|H]; [exfalso; eapply Hq; eauto|]. apply D3 in H. destruct H; simpl; auto.
+Qed.
+
+(* table / entry changes of Free, Close, Cancel: keys and pids are untouched *)
+Lemma Inv3_table_change s tbl' closed' ents' cancelled' :
+  Inv3 s ->
+  (forall k e, In (k, e) tbl' -> In (k, e) (tbl s)) ->
+  (forall e, key_of ents' e = key_of (ents s) e) -> length ents' = length (ents s) ->
+  Inv3 (mkBst tbl' closed' ents' cancelled' (thr s) (log s) (crashed s) (next_pid s)).
+Proof.
+  intros (K1 & K2 & P1 & P2 & D1 & D2 & D3) Ht Hk Hl.
+  split; [|split; [|split; [|split; [|split; [|split]]]]]; simpl; auto.
+  - eapply Forall_impl; [|exact K1]. intros th Hth. eapply keys_mono; eauto.
+    intros e He. rewrite Hl, Hk. auto.
+  - intros k e Hin. rewrite Hl, Hk. apply (K2 k e); auto.
+Qed.
+
+Lemma keys_idle_any en lg th pc' todo' res' :
+  thread_keys_ok en lg th -> pid_of (mkThread pc' todo' (handles th) res') = None ->
+  (match pc' with Idle => True | _ => False end) ->
+  thread_keys_ok en lg (mkThread pc' todo' (handles th) res').
+Proof. intros [_ H] _ Hp. destruct pc'; try contradiction. split; simpl; auto. Qed.
+
+Lemma Inv3_init progs : Inv3 (init progs).
+Proof.
+  split; [|split; [|split; [|split; [|split; [|split]]]]]; simpl; auto.
+  - apply Forall_forall. intros x Hin. apply in_map_iff in Hin as (p & <- & _). split; simpl; auto.
+  - intros k e [].
+  - intros t th p H Hp. rewrite nth_error_map in H. destruct (nth_error progs t); inversion H; subst. discriminate.
+  - intros t1 t2 th1 th2 p H1 _ Q1 _. rewrite nth_error_map in H1. destruct (nth_error progs t1); inversion H1; subst. discriminate.
+  - constructor.
+  - intros p [].
+  - intros p kp kr x r [].
+Qed.
+
+Lemma Inv3_step s t b s' : Inv3 s -> bstep fixed s t b = Some s' -> Inv3 s'.
+Proof.
+  intros HI H. pose proof HI as (K1 & K2 & P1 & P2 & D1 & D2 & D3).
+  unfold bstep in H. destruct (crashed s) eqn:Hcr; [discriminate|].
+  destruct (nth_error (thr s) t) as [th|] eqn:Hth; [|discriminate].
+  pose proof (Forall_nth_error _ _ _ _ K1 Hth) as Hk.
+  assert (Hlt : t < length (thr s)) by (apply nth_error_Some; congruence).
+  (* replacing t by an idle thread with the same handles *)
+  assert (Idle_ok : forall todo' res', Inv3 (set_thr s (upd (thr s) t (mkThread Idle todo' (handles th) res')))).
+  { intros. apply Inv3_upd_nopid; auto. destruct Hk as [_ Hh]. split; simpl; auto. }
+  destruct (pc th) eqn:Hpc; try discriminate.
+  - (* Idle: start the next operation *)
+    destruct (todo th) as [|op rest] eqn:Htodo; [discriminate|].
+    destruct op.
+    + (* Publish *)
+      unfold only0 in H. destruct b; [|discriminate].
+      destruct (closed s).
+      { inversion H; subst. apply Inv3_add_log_quiet; [intros; discriminate|]. apply Idle_ok. }
+      destruct (lookupN k (tbl s)) as [e|] eqn:El.
+      2:{ inversion H; subst. apply Inv3_add_log_quiet; [intros; discriminate|]. apply Idle_ok. }
+      inversion H; subst; clear H.
+      destruct (K2 k e (lookupN_In _ _ _ El)) as [Ke1 Ke2].
+      split; [|split; [|split; [|split; [|split; [|split]]]]]; cbn [thr ents tbl log next_pid]; auto.
+      * apply Forall_upd.
+        -- eapply Forall_impl; [|exact K1]. intros a Ha. eapply keys_mono; eauto. intros; simpl; auto.
+        -- destruct Hk as [_ Hh]. split; simpl; auto.
+      * intros t0 th0 p H H0. apply nth_error_upd in H as [(-> & -> & _)|(Hne & H)].
+        -- simpl in H0. inversion H0; subst. split; [lia|]. simpl. intros Hin. apply D2 in Hin. lia.
+        -- destruct (P1 _ _ _ H H0). simpl. split; [lia|auto].
+      * intros t1 t2 th1 th2 p H1 H2 Q1 Q2.
+        apply nth_error_upd in H1 as [(-> & -> & _)|(N1 & H1)]; apply nth_error_upd in H2 as [(-> & -> & _)|(N2 & H2)]; auto.
+        -- simpl in Q1. inversion Q1; subst. destruct (P1 _ _ _ H2 Q2). lia.
+        -- simpl in Q2. inversion Q2; subst. destruct (P1 _ _ _ H1 Q1). lia.
+        -- eapply P2; eauto.
+      * intros p Hin. simpl in Hin. apply D2 in Hin. lia.
+      * intros p kp kr x0 r [Hc|Hin]; [discriminate|]. apply D3 in Hin. destruct Hin; split; simpl; auto.
+    + (* Receive *)
+      unfold only0 in H. destruct b; [|discriminate].
+      destruct (closed s); [inversion H; subst; apply Idle_ok|].
+      destruct (lookupN k (tbl s)) as [e|] eqn:El.
+      * inversion H; subst; clear H. destruct (K2 k e (lookupN_In _ _ _ El)) as [Ke1 Ke2].
+        apply Inv3_upd_nopid; auto. destruct Hk as [_ Hh]. split; simpl; auto.
+        apply Forall_app; split; auto.
+      * inversion H; subst; clear H.
+        assert (Knew : forall e0, e0 < length (ents s) ->
+                  e0 < length (ents s ++ [mkEntry k c false false]) /\
+                  key_of (ents s ++ [mkEntry k c false false]) e0 = key_of (ents s) e0).
+        { intros e0 He0. rewrite app_length. simpl. split; [lia|apply key_of_app; auto]. }
+        assert (Klast : length (ents s) < length (ents s ++ [mkEntry k c false false]) /\
+                        key_of (ents s ++ [mkEntry k c false false]) (length (ents s)) = k).
+        { rewrite app_length. simpl. split; [lia|]. unfold key_of. rewrite app_nth2 by lia. rewrite Nat.sub_diag. reflexivity. }
+        split; [|split; [|split; [|split; [|split; [|split]]]]]; cbn [thr ents tbl log next_pid]; auto.
+        -- apply Forall_upd.
+           ++ eapply Forall_impl; [|exact K1]. intros a Ha. eapply keys_mono; eauto.
+           ++ destruct Hk as [_ Hh]. split; simpl; auto. apply Forall_app; split.
+              ** eapply Forall_impl; [|exact Hh]. intros [[k0 e0] c0] [A B]. destruct (Knew _ A). split; auto. congruence.
+              ** constructor; auto.
+        -- intros k0 e0 [Heq|Hin]; [inversion Heq; subst; exact Klast|]. destruct (K2 _ _ Hin) as [A B]. destruct (Knew _ A). split; auto. congruence.
+        -- intros t0 th0 p H H0. apply nth_error_upd in H as [(-> & -> & _)|(Hne & H)]; [discriminate|eapply P1; eauto].
+        -- intros t1 t2 th1 th2 p H1 H2 Q1 Q2.
+           apply nth_error_upd in H1 as [(-> & -> & _)|(N1 & H1)]; [discriminate|].
+           apply nth_error_upd in H2 as [(-> & -> & _)|(N2 & H2)]; [discriminate|]. eapply P2; eauto.
+    + (* RunRecv *)
+      destruct (nth_error (handles th) h) as [[[k e] c]|] eqn:Eh.
+      2:{ unfold only0 in H. destruct b; inversion H; subst. apply Idle_ok. }
+      assert (Hhe : e < length (ents s) /\ key_of (ents s) e = k).
+      { destruct Hk as [_ Hh]. eapply Forall_nth_error in Hh; eauto. exact Hh. }
+      destruct (recv_cases fixed s e c) as [|c0 cs] eqn:Ecases.
+      * unfold only0 in H. destruct b; inversion H; subst; clear H.
+        apply Inv3_upd_nopid; auto. destruct Hk as [_ Hh]. split; simpl; auto.
+      * destruct (nth_error (c0 :: cs) b) as [[t'| | |]|]; try discriminate; try (inversion H; subst; apply Idle_ok).
+        (* hand-off from a parked publisher *)
+        destruct (nth_error (thr s) t') as [th'|] eqn:Hth'; [|discriminate].
+        destruct (pc th') eqn:Hpc'; try discriminate.
+        destruct (Nat.eqb e e0) eqn:Ee; [|discriminate]. apply Nat.eqb_eq in Ee; subst e0.
+        inversion H; subst; clear H.
+        pose proof (Forall_nth_error _ _ _ _ K1 Hth') as Hk'. destruct Hk' as [Hk'1 Hk'2]. rewrite Hpc' in Hk'1.
+        destruct Hk'1 as (A1 & A2 & A3).
+        assert (Hp' : pid_of th' = Some p) by (unfold pid_of; rewrite Hpc'; reflexivity).
+        destruct (P1 _ _ _ Hth' Hp') as [Pb Pn].
+        split; [|split; [|split; [|split; [|split; [|split]]]]]; cbn [thr ents tbl log next_pid add_log set_thr]; auto.
+        -- apply Forall_upd; [apply Forall_upd|].
+           ++ eapply Forall_impl; [|exact K1]. intros a Ha. eapply keys_mono; eauto. intros; simpl; auto.
+           ++ split; simpl; auto.
+           ++ destruct Hk as [_ Hh]. split; simpl; auto.
+        -- intros t0 th0 q H H0. simpl.
+           apply nth_error_upd in H as [(-> & -> & _)|(Hne & H)]; [discriminate|].
+           apply nth_error_upd in H as [(-> & -> & _)|(Hne' & H)]; [discriminate|].
+           destruct (P1 _ _ _ H H0) as [B1 B2]. split; auto. intros [Heq|Hin]; [|auto].
+           subst q. apply Hne'. eapply (P2 t0 t' th0 th'); eauto.
+        -- intros t1 t2 th1 th2 q H1 H2 Q1 Q2.
+           apply nth_error_upd in H1 as [(-> & -> & _)|(N1 & H1)]; [discriminate|].
+           apply nth_error_upd in H1 as [(-> & -> & _)|(N1' & H1)]; [discriminate|].
+           apply nth_error_upd in H2 as [(-> & -> & _)|(N2 & H2)]; [discriminate|].
+           apply nth_error_upd in H2 as [(-> & -> & _)|(N2' & H2)]; [discriminate|]. eapply P2; eauto.
+        -- simpl. constructor; auto.
+        -- simpl. intros q [<-|Hin]; auto.
+        -- simpl. intros q kp kr x0 r [Heq|Hin].
+           ++ inversion Heq; subst. split; [destruct Hhe; congruence|right; exact A3].
+           ++ apply D3 in Hin. destruct Hin; split; auto.
+    + (* Free *)
+      unfold only0 in H. destruct b; [|discriminate]. inversion H; subst; clear H.
+      apply Inv3_wake.
+      pose proof (Idle_ok (tl (todo th)) (RUnit :: results th)) as HI2.
+      set (s1 := set_thr s (upd (thr s) t (ret (pop th) RUnit))) in *.
+      change (Inv3 s1) in HI2.
+      unfold do_free. destruct (lookupN k (tbl s1)) as [e|] eqn:El; [|exact HI2].
+      apply (Inv3_table_change s1 (removeN k (tbl s1)) (closed s1) (cancel_entries fixed [e] (ents s1)) (cancelled s1) HI2).
+      * intros k0 e0 Hin. apply In_removeN in Hin. apply Hin.
+      * intros e0. apply (key_of_cancel_entries fixed [e] (ents s1) e0).
+      * apply (key_of_cancel_entries fixed [e] (ents s1) 0).
+    + (* Close *)
+      unfold only0 in H. destruct b; [|discriminate]. inversion H; subst; clear H.
+      apply Inv3_wake.
+      pose proof (Idle_ok (tl (todo th)) (RUnit :: results th)) as HI2.
+      set (s1 := set_thr s (upd (thr s) t (ret (pop th) RUnit))) in *.
+      change (Inv3 s1) in HI2.
+      apply (Inv3_table_change s1 [] true (cancel_entries fixed (map snd (tbl s1)) (ents s1)) (cancelled s1) HI2).
+      * intros k0 e0 [].
+      * intros e0. apply (key_of_cancel_entries fixed (map snd (tbl s1)) (ents s1) e0).
+      * apply (key_of_cancel_entries fixed (map snd (tbl s1)) (ents s1) 0).
+    + (* Cancel *)
+      unfold only0 in H. destruct b; [|discriminate]. inversion H; subst; clear H.
+      apply Inv3_wake.
+      pose proof (Idle_ok (tl (todo th)) (RUnit :: results th)) as HI2.
+      set (s1 := set_thr s (upd (thr s) t (ret (pop th) RUnit))) in *.
+      change (Inv3 s1) in HI2.
+      apply (Inv3_table_change s1 (tbl s1) (closed s1) (ents s1) (c :: cancelled s1) HI2); auto.
+  - (* PubFound: the hand-off select *)
+    destruct Hk as [Hk1 Hk2]. rewrite Hpc in Hk1. destruct Hk1 as (A1 & A2 & A3).
+    assert (Hp : pid_of th = Some p) by (unfold pid_of; rewrite Hpc; reflexivity).
+    destruct (P1 _ _ _ Hth Hp) as [Pb Pn].
+    destruct (pub_cases s e) as [|c0 cs] eqn:Ecases.
+    + (* blocks: same publish instance, now parked *)
+      unfold only0 in H. destruct b; inversion H; subst; clear H.
+      split; [|split; [|split; [|split; [|split; [|split]]]]]; cbn [thr ents tbl log next_pid set_thr]; auto.
+      * apply Forall_upd; auto. split; simpl; auto.
+      * intros t0 th0 q H H0. apply nth_error_upd in H as [(-> & -> & _)|(Hne & H)]; [|eapply P1; eauto].
+        simpl in H0. inversion H0; subst. auto.
+      * intros t1 t2 th1 th2 q H1 H2 Q1 Q2.
+        apply nth_error_upd in H1 as [(-> & -> & _)|(N1 & H1)]; apply nth_error_upd in H2 as [(-> & -> & _)|(N2 & H2)]; auto.
+        -- simpl in Q1. inversion Q1; subst. symmetry. eapply (P2 t2 t th2 th); eauto.
+        -- simpl in Q2. inversion Q2; subst. eapply (P2 t1 t th1 th); eauto.
+        -- eapply P2; eauto.
+    + destruct (nth_error (c0 :: cs) b) as [[t'| |]|]; try discriminate.
+      * (* hand-off to a parked receiver *)
+        destruct (nth_error (thr s) t') as [th'|] eqn:Hth'; [|discriminate].
+        destruct (pc th') eqn:Hpc'; try discriminate.
+        destruct (Nat.eqb e e0) eqn:Ee; [|discriminate]. apply Nat.eqb_eq in Ee; subst e0.
+        inversion H; subst; clear H.
+        pose proof (Forall_nth_error _ _ _ _ K1 Hth') as [Hk'1 Hk'2]. rewrite Hpc' in Hk'1. destruct Hk'1 as (B1 & B2).
+        split; [|split; [|split; [|split; [|split; [|split]]]]]; cbn [thr ents tbl log next_pid add_log set_thr]; auto.
+        -- apply Forall_upd; [apply Forall_upd|].
+           ++ eapply Forall_impl; [|exact K1]. intros a Ha. eapply keys_mono; eauto. intros; simpl; auto.
+           ++ split; simpl; auto.
+           ++ split; simpl; auto.
+        -- intros t0 th0 q H H0. simpl.
+           apply nth_error_upd in H as [(-> & -> & _)|(Hne & H)]; [discriminate|].
+           apply nth_error_upd in H as [(-> & -> & _)|(Hne' & H)]; [discriminate|].
+           destruct (P1 _ _ _ H H0) as [C1 C2]. split; auto. intros [Heq|Hin]; [|auto].
+           subst q. apply Hne. eapply (P2 t0 t th0 th); eauto.
+        -- intros t1 t2 th1 th2 q H1 H2 Q1 Q2.
+           apply nth_error_upd in H1 as [(-> & -> & _)|(N1 & H1)]; [discriminate|].
+           apply nth_error_upd in H1 as [(-> & -> & _)|(N1' & H1)]; [discriminate|].
+           apply nth_error_upd in H2 as [(-> & -> & _)|(N2 & H2)]; [discriminate|].
+           apply nth_error_upd in H2 as [(-> & -> & _)|(N2' & H2)]; [discriminate|]. eapply P2; eauto.
+        -- simpl. constructor; auto.
+        -- simpl. intros q [<-|Hin]; auto.
+        -- simpl. intros q kp kr x0 r [Heq|Hin].
+           ++ inversion Heq; subst. split; [congruence|right; exact A3].
+           ++ apply D3 in Hin. destruct Hin; split; auto.
+      * inversion H; subst. apply Idle_ok.
+      * (* crash: only in the legacy variant; under [fixed] the case list never contains it, but the
+           invariant is preserved anyway *)
+        inversion H; subst; clear H.
+        split; [|split; [|split; [|split; [|split; [|split]]]]]; cbn [thr ents tbl log next_pid]; auto.
+        -- apply Forall_upd.
+           ++ eapply Forall_impl; [|exact K1]. intros a Ha. eapply keys_mono; eauto. intros; simpl; auto.
+           ++ split; simpl; auto.
+        -- intros t0 th0 q H H0. apply nth_error_upd in H as [(-> & -> & _)|(Hne & H)]; [discriminate|]. simpl. eapply P1; eauto.
+        -- intros t1 t2 th1 th2 q H1 H2 Q1 Q2.
+           apply nth_error_upd in H1 as [(-> & -> & _)|(N1 & H1)]; [discriminate|].
+           apply nth_error_upd in H2 as [(-> & -> & _)|(N2 & H2)]; [discriminate|]. eapply P2; eauto.
+        -- intros q kp kr x0 r [Hc|Hin]; [discriminate|]. apply D3 in Hin. destruct Hin; split; simpl; auto.
+Qed.
+
+Lemma Inv3_run cs : forall s0 s, Inv3 s0 -> run fixed s0 cs = Some s -> Inv3 s.
+Proof.
+  induction cs as [|[t b] cs IH]; intros s0 s H0 Hr; simpl in Hr.
+  - inversion Hr; subst; auto.
+  - destruct (bstep fixed s0 t b) eqn:E; [|discriminate]. eapply IH; [eapply Inv3_step; eauto|auto].
+Qed.
+
+(* every publish instance (pid) is delivered at most once; a delivery goes to a receiver of the very
+   key it was published on and carries the published value *)
+Lemma bc_delivery_injective_lemma progs s :
+  reachable fixed progs s ->
+  NoDup (delivered (log s)) /\
+  (forall p kp kr x r, In (EvDeliver p kp kr x r) (log s) -> kp = kr /\ In (EvPubStart p kp x) (log s)).
+Proof.
+  intros [cs Hr]. pose proof (Inv3_run cs _ _ (Inv3_init progs) Hr) as (_ & _ & _ & _ & D1 & _ & D3). auto.
+Qed.
